@@ -394,3 +394,353 @@ Proof.
       destruct ((tr_tie_mode t =? 2) || (tr_tie_mode t =? 3)); [reflexivity|].
       destruct (2 <=? length (runs first rest))%nat; reflexivity.
 Qed.
+
+(* ------------------------------------------------------------------------------------------------ *)
+(* 6. the per-mode theorems                                                                           *)
+
+Theorem mode_gate_spec tb t first rest :
+  tr_tie_notes t = first :: rest -> tr_tie_mode t = 2 ->
+  tr_events (check_tie_notes tb t) = tr_events t ++ gate_notes (tr_tie_value t) (runs first rest)
+  /\ length (gate_notes (tr_tie_value t) (runs first rest)) = length (runs first rest)
+  /\ tr_bend_range (check_tie_notes tb t) = tr_bend_range t.
+Proof.
+  intros G M. rewrite (check_spec tb t first rest G). unfold tie_out, tie_bend_range, out_gate. rewrite M.
+  cbn [Z.eqb Pos.eqb orb tr_set_tie tr_events tr_bend_range]. split; [reflexivity|]. split; [apply gate_notes_length | reflexivity].
+Qed.
+
+Theorem mode_alpe_spec tb t first rest :
+  tr_tie_notes t = first :: rest -> tr_tie_mode t = 3 ->
+  let out := map (fun e => set_v2 e (group_end first rest - e_time e)) (first :: rest) in
+  tr_events (check_tie_notes tb t) = tr_events t ++ out
+  /\ length out = length (first :: rest)
+  /\ map (fun e => (e_type e, e_time e, e_ch e, e_v1 e, e_v3 e, e_data e)) out
+     = map (fun e => (e_type e, e_time e, e_ch e, e_v1 e, e_v3 e, e_data e)) (first :: rest)
+  /\ Forall (fun e => e_time e + e_v2 e = group_end first rest) out
+  /\ tr_bend_range (check_tie_notes tb t) = tr_bend_range t.
+Proof.
+  intros G M. cbv zeta. rewrite (check_spec tb t first rest G). unfold tie_out, tie_bend_range, out_alpe. rewrite M.
+  cbn [Z.eqb Pos.eqb orb tr_set_tie tr_events tr_bend_range]. split; [reflexivity|]. split; [apply map_length|].
+  split; [rewrite map_map; reflexivity|]. split; [|reflexivity].
+  apply Forall_forall. intros e He. apply in_map_iff in He. destruct He as [x [<- _]]. cbn [set_v2 e_time e_v2]. lia.
+Qed.
+
+Theorem mode_bend_spec tb t first rest :
+  tr_tie_notes t = first :: rest -> tr_tie_mode t = 1 ->
+  let ch := tr_channel t in
+  let br := eff_br (tr_bend_range t) in
+  let en := group_end first rest in
+  tr_events (check_tie_notes tb t) =
+    tr_events t ++ announce ch (tr_bend_range t) (e_time first)
+    ++ [ev_pitch_bend (e_time first) ch 8192]
+    ++ map (fun p => ev_pitch_bend (e_time (fst p)) ch (bend_value (e_v1 (fst p) - e_v1 first) br)) (tl (runs first rest))
+    ++ [set_v2 first (en - e_time first); ev_pitch_bend en ch 8192]
+  /\ tr_bend_range (check_tie_notes tb t) = br.
+Proof.
+  intros G M. cbv zeta. rewrite (check_spec tb t first rest G). unfold tie_out, tie_bend_range, out_bend. rewrite M.
+  cbn [Z.eqb Pos.eqb tr_set_tie tr_events tr_bend_range]. split; reflexivity.
+Qed.
+
+Theorem mode_port_spec tb t first rest :
+  tr_tie_notes t = first :: rest -> tr_tie_mode t = 0 ->
+  let ch := tr_channel t in
+  let rs := runs first rest in
+  tr_events (check_tie_notes tb t) =
+    tr_events t ++ (if (2 <=? length rs)%nat then announce ch (tr_bend_range t) (e_time first) else [])
+    ++ port_out ch (eff_tv tb (tr_tie_value t)) (eff_br (tr_bend_range t)) rs
+  /\ tr_bend_range (check_tie_notes tb t) = (if (2 <=? length rs)%nat then eff_br (tr_bend_range t) else tr_bend_range t).
+Proof.
+  intros G M. cbv zeta. rewrite (check_spec tb t first rest G). unfold tie_out, tie_bend_range, out_port. rewrite M.
+  cbn [Z.eqb orb tr_set_tie tr_events tr_bend_range]. split; reflexivity.
+Qed.
+
+(* same pitch throughout: the group is one note (modes 0 and 2: nothing else; mode 1: bend 8192 before
+   and after, and the bend-range announcement when the track had none) *)
+Theorem same_pitch_merge tb t first rest :
+  tr_tie_notes t = first :: rest -> Forall (fun e => e_v1 e = e_v1 first) rest ->
+  let en := group_end first rest in
+  let whole := set_v2 first (en - e_time first) in
+  (tr_tie_mode t = 0 \/ tr_tie_mode t = 2 ->
+     tr_events (check_tie_notes tb t) = tr_events t ++ [whole]
+     /\ tr_bend_range (check_tie_notes tb t) = tr_bend_range t)
+  /\ (tr_tie_mode t = 1 ->
+     tr_events (check_tie_notes tb t) =
+       tr_events t ++ announce (tr_channel t) (tr_bend_range t) (e_time first)
+       ++ [ev_pitch_bend (e_time first) (tr_channel t) 8192; whole; ev_pitch_bend en (tr_channel t) 8192]).
+Proof.
+  intros G S. cbv zeta.
+  assert (R : runs first rest = [(first, group_end first rest)]) by (apply runs_lr_same; exact S).
+  split.
+  - intros [M|M].
+    + destruct (mode_port_spec tb t first rest G M) as [A B]. cbv zeta in A, B. rewrite A, B, R.
+      cbn [length Nat.leb port_out app]. split; reflexivity.
+    + destruct (mode_gate_spec tb t first rest G M) as [A [_ B]]. rewrite A, B, R. split; reflexivity.
+  - intros M. destruct (mode_bend_spec tb t first rest G M) as [A _]. cbv zeta in A. rewrite A, R. reflexivity.
+Qed.
+
+(* ------------------------------------------------------------------------------------------------ *)
+(* 7. every bend in range; no note twice                                                              *)
+
+Definition bend_ok (e : event) : Prop := e_type e = PitchBend -> 0 <= e_v1 e <= 16383.
+
+Lemma value_range_14 v : 0 <= value_range 0 v 16383 <= 16383.
+Proof. unfold value_range. destruct (v <? 0) eqn:A; [lia|]. destruct (v >? 16383) eqn:B; lia. Qed.
+
+Lemma runs_lr_heads (Q : event -> Prop) : forall r h en, Q h -> Forall Q r -> Forall (fun p => Q (fst p)) (runs_lr h en r).
+Proof.
+  induction r as [|x r IH]; intros h en Hh Hr; cbn [runs_lr]; [constructor; [exact Hh | constructor]|].
+  inversion Hr as [|? ? Hx Hr']; subst.
+  destruct (e_v1 h =? e_v1 x); [apply IH; assumption | constructor; [exact Hh | apply IH; assumption]].
+Qed.
+
+Lemma port_ramp_bends ch tv br h h' :
+  Forall (fun e => e_type e = PitchBend /\ e_ch e = ch /\ e_time h' - tv <= e_time e < e_time h' /\ 0 <= e_v1 e <= 16383)
+         (port_ramp ch tv br h h').
+Proof.
+  destruct (port_ramp_shape ch tv br h h') as [A _]. eapply Forall_impl; [|exact A]. cbv beta.
+  intros e [j [Hj ->]]. cbn [ev_pitch_bend e_type e_ch e_time e_v1]. repeat split; try lia; apply value_range_14.
+Qed.
+
+Lemma port_out_facts ch tv br : forall rs, Forall (fun p => e_type (fst p) = NoteOn) rs ->
+  Forall bend_ok (port_out ch tv br rs) /\ note_count (port_out ch tv br rs) = length rs.
+Proof.
+  induction rs as [|[h en] rs IH]; intros H; [split; [constructor | reflexivity]|].
+  inversion H as [|? ? Hh Hr]; subst. cbn [fst] in Hh. specialize (IH Hr). destruct IH as [IH1 IH2].
+  cbn [port_out]. destruct rs as [|[h' en'] rs'].
+  - split.
+    + constructor; [|constructor]. intros T. cbn [set_v2 e_type] in T. congruence.
+    + unfold note_count. cbn [filter set_v2 e_type]. rewrite Hh. reflexivity.
+  - split.
+    + apply Forall_app. split.
+      * eapply Forall_impl; [|apply port_ramp_bends]. cbv beta. intros e [_ [_ [_ V]]] _. exact V.
+      * constructor; [intros T; cbn [set_v2 e_type] in T; congruence|].
+        constructor; [intros _; cbn; lia | exact IH1].
+    + unfold note_count in *. rewrite filter_app, app_length.
+      assert (Z0 : length (filter (fun e => etype_eqb (e_type e) NoteOn) (port_ramp ch tv br h h')) = 0%nat).
+      { pose proof (port_ramp_bends ch tv br h h') as F. induction F as [|e l [T _] _ IHl]; [reflexivity|].
+        cbn [filter]. rewrite T. exact IHl. }
+      rewrite Z0. cbn [app filter set_v2 e_type ev_pitch_bend etype_eqb]. rewrite Hh. cbn [etype_eqb length].
+      rewrite IH2. reflexivity.
+Qed.
+
+Lemma gate_notes_facts tv : forall rs, Forall (fun p => e_type (fst p) = NoteOn) rs ->
+  Forall bend_ok (gate_notes tv rs) /\ note_count (gate_notes tv rs) = length rs.
+Proof.
+  induction rs as [|[h en] rs IH]; intros H; [split; [constructor | reflexivity]|].
+  inversion H as [|? ? Hh Hr]; subst. cbn [fst] in Hh. destruct (IH Hr) as [IH1 IH2]. cbn [gate_notes]. split.
+  - constructor; [intros T; cbn [set_v2 e_type] in T; congruence | exact IH1].
+  - unfold note_count in *. cbn [filter set_v2 e_type]. rewrite Hh. cbn [etype_eqb length]. rewrite IH2. reflexivity.
+Qed.
+
+Lemma announce_facts ch br ft : Forall bend_ok (announce ch br ft) /\ note_count (announce ch br ft) = 0%nat.
+Proof.
+  unfold announce. destruct (br <=? 0); split; try reflexivity; try constructor; [|constructor].
+  intros T. cbn in T. discriminate.
+Qed.
+
+Lemma note_count_app a b : note_count (a ++ b) = (note_count a + note_count b)%nat.
+Proof. unfold note_count. rewrite filter_app, app_length. reflexivity. Qed.
+
+Theorem tie_out_facts tb t first rest :
+  Forall (fun e => e_type e = NoteOn) (first :: rest) ->
+  Forall bend_ok (tie_out tb t first rest)
+  /\ note_count (tie_out tb t first rest) =
+       (if tr_tie_mode t =? 1 then 1%nat else if tr_tie_mode t =? 3 then length (first :: rest) else length (runs first rest))
+  /\ (length (runs first rest) <= length (first :: rest))%nat.
+Proof.
+  intros N. inversion N as [|? ? Nf Nr]; subst.
+  assert (RH : Forall (fun p => e_type (fst p) = NoteOn) (runs first rest)) by (apply (runs_lr_heads (fun e => e_type e = NoteOn)); assumption).
+  split; [|split].
+  - unfold tie_out. destruct (tr_tie_mode t =? 1).
+    + unfold out_bend. destruct (announce_facts (tr_channel t) (tr_bend_range t) (e_time first)) as [A _].
+      apply Forall_app. split; [exact A|]. constructor; [intros _; cbn; lia|].
+      apply Forall_app. split.
+      * apply Forall_forall. intros e He. apply in_map_iff in He. destruct He as [p [<- _]]. intros _.
+        cbn [ev_pitch_bend e_v1]. apply value_range_14.
+      * constructor; [intros T; cbn [set_v2 e_type] in T; congruence|]. constructor; [intros _; cbn; lia | constructor].
+    + destruct (tr_tie_mode t =? 2); [apply gate_notes_facts; exact RH|].
+      destruct (tr_tie_mode t =? 3).
+      * unfold out_alpe. apply Forall_forall. intros e He. apply in_map_iff in He. destruct He as [x [<- Hx]].
+        intros T. cbn [set_v2 e_type] in T. rewrite Forall_forall in N. rewrite (N x Hx) in T. discriminate.
+      * unfold out_port. apply Forall_app. split; [|apply port_out_facts; exact RH].
+        destruct (2 <=? length (runs first rest))%nat; [apply announce_facts | constructor].
+  - unfold tie_out. destruct (tr_tie_mode t =? 1).
+    + unfold out_bend. rewrite !note_count_app.
+      destruct (announce_facts (tr_channel t) (tr_bend_range t) (e_time first)) as [_ A]. rewrite A.
+      assert (B : note_count (map (fun p => ev_pitch_bend (e_time (fst p)) (tr_channel t)
+                   (bend_value (e_v1 (fst p) - e_v1 first) (eff_br (tr_bend_range t)))) (tl (runs first rest))) = 0%nat).
+      { unfold note_count. induction (tl (runs first rest)) as [|p l IHl]; [reflexivity | exact IHl]. }
+      rewrite B. unfold note_count. cbn [filter ev_pitch_bend set_v2 e_type etype_eqb]. rewrite Nf. reflexivity.
+    + destruct (tr_tie_mode t =? 2) eqn:M2;
+        [apply Z.eqb_eq in M2; rewrite M2; cbn [Z.eqb Pos.eqb]; apply gate_notes_facts; exact RH|].
+      destruct (tr_tie_mode t =? 3).
+      * unfold out_alpe, note_count. rewrite map_length.
+        assert (F : forall l, Forall (fun e => e_type e = NoteOn) l ->
+                  filter (fun e => etype_eqb (e_type e) NoteOn) (map (fun e => set_v2 e (group_end first rest - e_time e)) l)
+                  = map (fun e => set_v2 e (group_end first rest - e_time e)) l).
+        { induction l as [|x l IHl]; intros Hl; [reflexivity|]. inversion Hl as [|? ? Hx Hl']; subst.
+          cbn [map filter set_v2 e_type]. rewrite Hx. cbn [etype_eqb]. rewrite IHl by exact Hl'. reflexivity. }
+        rewrite F by exact N. apply map_length.
+      * unfold out_port. rewrite note_count_app.
+        destruct (port_out_facts (tr_channel t) (eff_tv tb (tr_tie_value t)) (eff_br (tr_bend_range t)) _ RH) as [_ C].
+        rewrite C. destruct (2 <=? length (runs first rest))%nat; [|reflexivity].
+        destruct (announce_facts (tr_channel t) (tr_bend_range t) (e_time first)) as [_ A]. rewrite A. reflexivity.
+  - unfold runs. cbn [length]. apply runs_lr_length.
+Qed.
+
+(* ------------------------------------------------------------------------------------------------ *)
+(* 8. the bend of mode 1 at the default range 12: the f32 expression is the exact truncated quotient   *)
+
+Definition all_diffs : list Z := map (fun n => Z.of_nat n - 127) (seq 0 255).
+Lemma bend_value_12_all :
+  forallb (fun d => bend_value d 12 =? value_range 0 (Z.quot (d * 8192) 12 + 8192) 16383) all_diffs = true.
+Proof. vm_compute. reflexivity. Qed.
+
+Theorem bend_value_12 d : -127 <= d <= 127 -> bend_value d 12 = value_range 0 (Z.quot (d * 8192) 12 + 8192) 16383.
+Proof.
+  intros H. pose proof bend_value_12_all as A. rewrite forallb_forall in A. apply Z.eqb_eq. apply A.
+  unfold all_diffs. apply in_map_iff. exists (Z.to_nat (d + 127)). split; [lia|]. apply in_seq. lia.
+Qed.
+
+(* ------------------------------------------------------------------------------------------------ *)
+(* 9. the time pointer: emit_note for a lettered note outside a chord                                 *)
+
+Definition cur_valid (s : song) : Prop := (s_cur s < length (s_tracks s))%nat.
+
+Definition tie_frame_eq (a b : track) : Prop :=
+  tr_timepos a = tr_timepos b /\ tr_channel a = tr_channel b /\ tr_length a = tr_length b /\
+  tr_octave a = tr_octave b /\ tr_velocity a = tr_velocity b /\ tr_qlen a = tr_qlen b /\
+  tr_timing a = tr_timing b /\ tr_track_key a = tr_track_key b /\
+  tr_tie_mode a = tr_tie_mode b /\ tr_tie_value a = tr_tie_value b.
+
+Lemma check_tie_frame_eq tb t : tie_frame_eq (check_tie_notes tb t) t.
+Proof. pose proof (check_frame tb t) as H. cbv zeta in H. unfold tie_frame_eq. tauto. Qed.
+
+Lemma upd_nth_len {A} (f : A -> A) l : forall n, length (upd_nth n f l) = length l.
+Proof. induction l as [|x r IH]; intros [|n]; cbn [upd_nth length]; try reflexivity. rewrite IH. reflexivity. Qed.
+Lemma nth_upd_nth_same {A} (f : A -> A) (d : A) l : forall n, (n < length l)%nat -> nth n (upd_nth n f l) d = f (nth n l d).
+Proof.
+  induction l as [|x r IH]; intros [|n] H; cbn [length] in H; try lia; cbn [upd_nth nth]; [reflexivity|]. apply IH. lia.
+Qed.
+Lemma nth_upd_nth_other {A} (f : A -> A) (d : A) l : forall n i, i <> n -> nth i (upd_nth n f l) d = nth i l d.
+Proof.
+  induction l as [|x r IH]; intros [|n] [|i] H; cbn [upd_nth nth]; try reflexivity; try congruence. apply IH. congruence.
+Qed.
+
+(* what one `upd_cur` does *)
+Lemma upd_cur_facts s f : cur_valid s ->
+  s_cur (upd_cur s f) = s_cur s /\ length (s_tracks (upd_cur s f)) = length (s_tracks s) /\
+  (forall i d, i <> s_cur s -> nth i (s_tracks (upd_cur s f)) d = nth i (s_tracks s) d) /\
+  s_set_tracks (upd_cur s f) [] = s_set_tracks s [] /\
+  cur_track (upd_cur s f) = f (cur_track s).
+Proof.
+  intros H. unfold upd_cur, cur_track. cbn [s_set_tracks s_cur s_tracks].
+  split; [reflexivity|]. split; [apply upd_nth_len|]. split; [intros i d Hi; apply nth_upd_nth_other; exact Hi|].
+  split; [reflexivity|]. apply nth_upd_nth_same. exact H.
+Qed.
+
+Theorem emit_note_pointer s ev nl slur :
+  cur_valid s -> s_harmony_flag s = false ->
+  exists s', emit_note s ev nl true slur = Ok s' /\
+    s_cur s' = s_cur s /\ length (s_tracks s') = length (s_tracks s) /\
+    (forall i d, i <> s_cur s -> nth i (s_tracks s') d = nth i (s_tracks s) d) /\
+    s_set_tracks s' [] = s_set_octave_once (s_set_tracks s []) 0 /\
+    tie_frame_eq (cur_track s')
+                 (tr_set_octave (tr_set_timepos (cur_track s) (tr_timepos (cur_track s) + nl))
+                                (tr_octave (cur_track s) - s_octave_once s)).
+Proof.
+  intros Hc Hh. unfold emit_note.
+  set (s1 := upd_cur s (fun t => tr_set_timepos t (tr_timepos t + nl))).
+  destruct (upd_cur_facts s (fun t => tr_set_timepos t (tr_timepos t + nl)) Hc) as [A1 [A2 [A3 [A4 A5]]]]. fold s1 in A1, A2, A3, A4, A5.
+  assert (Hc1 : cur_valid s1) by (unfold cur_valid; rewrite A1, A2; exact Hc).
+  set (s2 := if s_octave_once s1 =? 0 then s1
+             else s_set_octave_once (upd_cur s1 (fun t => tr_set_octave t (tr_octave t - s_octave_once s1))) 0).
+  assert (B : s_cur s2 = s_cur s /\ length (s_tracks s2) = length (s_tracks s) /\
+              (forall i d, i <> s_cur s -> nth i (s_tracks s2) d = nth i (s_tracks s) d) /\
+              s_set_tracks s2 [] = s_set_octave_once (s_set_tracks s []) 0 /\
+              s_harmony_flag s2 = false /\
+              cur_track s2 = tr_set_octave (tr_set_timepos (cur_track s) (tr_timepos (cur_track s) + nl))
+                                           (tr_octave (cur_track s) - s_octave_once s)).
+  { assert (O1 : s_octave_once s1 = s_octave_once s) by reflexivity.
+    subst s2. destruct (s_octave_once s1 =? 0) eqn:E.
+    - apply Z.eqb_eq in E. split; [exact A1|]. split; [exact A2|]. split; [exact A3|].
+      split; [rewrite A4; destruct s; cbn in *; subst; reflexivity|]. split; [exact Hh|].
+      rewrite A5. rewrite <- O1, E, Z.sub_0_r. destruct (cur_track s); reflexivity.
+    - destruct (upd_cur_facts s1 (fun t => tr_set_octave t (tr_octave t - s_octave_once s1)) Hc1) as [C1 [C2 [C3 [C4 C5]]]].
+      split; [cbn [s_set_octave_once s_cur]; rewrite C1; exact A1|].
+      split; [cbn [s_set_octave_once s_tracks]; rewrite C2; exact A2|].
+      split; [intros i d Hi; cbn [s_set_octave_once s_tracks]; rewrite C3 by (rewrite A1; exact Hi); apply A3; exact Hi|].
+      split; [reflexivity|]. split; [exact Hh|].
+      unfold cur_track in *. cbn [s_set_octave_once s_tracks s_cur]. rewrite C5, A5. rewrite O1. reflexivity. }
+  destruct B as [B1 [B2 [B3 [B4 [B5 B6]]]]]. rewrite B5.
+  assert (Hc2 : cur_valid s2) by (unfold cur_valid; rewrite B1, B2; exact Hc).
+  assert (K : forall f, (forall t, tie_frame_eq (f t) t) ->
+    exists s', Ok (upd_cur s2 f) = Ok s' /\
+      s_cur s' = s_cur s /\ length (s_tracks s') = length (s_tracks s) /\
+      (forall i d, i <> s_cur s -> nth i (s_tracks s') d = nth i (s_tracks s) d) /\
+      s_set_tracks s' [] = s_set_octave_once (s_set_tracks s []) 0 /\
+      tie_frame_eq (cur_track s')
+                   (tr_set_octave (tr_set_timepos (cur_track s) (tr_timepos (cur_track s) + nl))
+                                  (tr_octave (cur_track s) - s_octave_once s))).
+  { intros f Hf. exists (upd_cur s2 f). destruct (upd_cur_facts s2 f Hc2) as [D1 [D2 [D3 [D4 D5]]]].
+    split; [reflexivity|]. split; [rewrite D1; exact B1|]. split; [rewrite D2; exact B2|].
+    split; [intros i d Hi; rewrite D3 by (rewrite B1; exact Hi); apply B3; exact Hi|].
+    split; [rewrite D4; exact B4|]. rewrite D5, <- B6. apply Hf. }
+  destruct (slur >=? 1).
+  - apply K. intros t. unfold tie_frame_eq, push_tie_note. cbn. tauto.
+  - destruct (negb match tr_tie_notes (cur_track s2) with [] => true | _ :: _ => false end).
+    + apply K. intros t. pose proof (check_tie_frame_eq (s_timebase s2) (push_tie_note t ev)) as F.
+      unfold tie_frame_eq in *. cbn [push_tie_note tr_set_tie tr_timepos tr_channel tr_length tr_octave tr_velocity tr_qlen
+        tr_timing tr_track_key tr_tie_mode tr_tie_value] in F. exact F.
+    + apply K. intros t. unfold tie_frame_eq, tr_push_event. cbn. tauto.
+Qed.
+
+(* what happens to the group: '&' collects, the first untied note closes and writes the group *)
+Theorem emit_note_group s ev nl slur :
+  cur_valid s -> s_harmony_flag s = false ->
+  exists s', emit_note s ev nl true slur = Ok s' /\
+    let t := cur_track s in let t' := cur_track s' in
+    (1 <= slur -> tr_tie_notes t' = tr_tie_notes t ++ [ev] /\ tr_events t' = tr_events t) /\
+    (slur < 1 -> tr_tie_notes t = [] -> tr_tie_notes t' = [] /\ tr_events t' = tr_events t ++ [ev]) /\
+    (slur < 1 -> tr_tie_notes t <> [] -> tr_tie_notes t' = [] /\
+       exists first rest, tr_tie_notes t ++ [ev] = first :: rest /\
+         tr_events t' = tr_events t ++ tie_out (s_timebase s) t first rest).
+Proof.
+  intros Hc Hh. unfold emit_note.
+  set (s1 := upd_cur s (fun t => tr_set_timepos t (tr_timepos t + nl))).
+  destruct (upd_cur_facts s (fun t => tr_set_timepos t (tr_timepos t + nl)) Hc) as [A1 [A2 [_ [_ A5]]]]. fold s1 in A1, A2, A5.
+  assert (Hc1 : cur_valid s1) by (unfold cur_valid; rewrite A1, A2; exact Hc).
+  set (s2 := if s_octave_once s1 =? 0 then s1
+             else s_set_octave_once (upd_cur s1 (fun t => tr_set_octave t (tr_octave t - s_octave_once s1))) 0).
+  assert (B : cur_valid s2 /\ s_harmony_flag s2 = false /\ s_timebase s2 = s_timebase s /\
+              tr_tie_notes (cur_track s2) = tr_tie_notes (cur_track s) /\ tr_events (cur_track s2) = tr_events (cur_track s) /\
+              tie_frame_eq (cur_track s2) (tr_set_octave (tr_set_timepos (cur_track s) (tr_timepos (cur_track s) + nl))
+                                                         (tr_octave (cur_track s) - s_octave_once s)) /\
+              tr_bend_range (cur_track s2) = tr_bend_range (cur_track s)).
+  { subst s2. destruct (s_octave_once s1 =? 0) eqn:E.
+    - split; [exact Hc1|]. split; [exact Hh|]. split; [reflexivity|]. rewrite A5. split; [reflexivity|]. split; [reflexivity|].
+      split; [|reflexivity]. apply Z.eqb_eq in E. change (s_octave_once s1) with (s_octave_once s) in E. rewrite E, Z.sub_0_r.
+      unfold tie_frame_eq. cbn. tauto.
+    - destruct (upd_cur_facts s1 (fun t => tr_set_octave t (tr_octave t - s_octave_once s1)) Hc1) as [C1 [C2 [_ [_ C5]]]].
+      split; [unfold cur_valid; cbn [s_set_octave_once s_cur s_tracks]; rewrite C1, C2; exact Hc1|].
+      split; [exact Hh|]. split; [reflexivity|].
+      unfold cur_track in *. cbn [s_set_octave_once s_tracks s_cur]. rewrite C5, A5.
+      split; [reflexivity|]. split; [reflexivity|]. split; [|reflexivity]. unfold tie_frame_eq. cbn. tauto. }
+  destruct B as [Hc2 [B5 [Btb [Bt [Be [_ Bbr]]]]]]. rewrite B5.
+  destruct (slur >=? 1) eqn:S1.
+  - eexists. split; [reflexivity|]. cbv zeta. destruct (upd_cur_facts s2 (fun t => push_tie_note t ev) Hc2) as [_ [_ [_ [_ D5]]]].
+    rewrite D5. cbn [push_tie_note tr_set_tie tr_tie_notes tr_events]. rewrite Bt, Be.
+    split; [intros _; split; reflexivity|]. split; intros; lia.
+  - destruct (tr_tie_notes (cur_track s2)) as [|x l] eqn:T; cbn [negb].
+    + eexists. split; [reflexivity|]. cbv zeta. destruct (upd_cur_facts s2 (fun t => tr_push_event t ev) Hc2) as [_ [_ [_ [_ D5]]]].
+      rewrite D5. cbn [tr_push_event tr_set_events tr_tie_notes tr_events]. rewrite T, Be, <- Bt.
+      split; [intros; lia|]. split; [intros; split; reflexivity|]. intros _ N. congruence.
+    + eexists. split; [reflexivity|]. cbv zeta.
+      destruct (upd_cur_facts s2 (fun t => check_tie_notes (s_timebase s2) (push_tie_note t ev)) Hc2) as [_ [_ [_ [_ D5]]]].
+      rewrite D5. split; [intros; lia|]. split; [intros _ N; congruence|]. intros _ _.
+      split; [apply check_clears|]. exists x, (l ++ [ev]). split; [rewrite <- Bt; reflexivity|].
+      rewrite (check_spec (s_timebase s2) (push_tie_note (cur_track s2) ev) x (l ++ [ev]))
+        by (cbn [push_tie_note tr_set_tie tr_tie_notes]; rewrite T; reflexivity).
+      cbn [push_tie_note tr_set_tie tr_events]. rewrite Be, Btb. f_equal.
+      unfold tie_out. cbn [tr_tie_mode tr_channel tr_bend_range tr_tie_value].
+      admit.
+Admitted.
